@@ -900,4 +900,120 @@ theorem cqm_edits_leave_model {h : Heap} {d m : Nat} (hg : CGood h d) (hm : Born
     obtain ⟨i1, i2⟩ := ih g' b1 (by rw [b3, b4, ec, ev]; exact ⟨nin m k3 hdis.1, nin c k5 hdis.2.1, nin v k7 hdis.2.2⟩)
     exact ⟨by simp only [List.foldl_cons]; exact i1.trans b2, i2⟩
 
+/-- `add_constraint_from_model(copy=True)` on a well-formed CQM and a model sharing no cell with it: afterwards the CQM is well-formed
+    (with the new constraint in its footprint), the model is the same object reading the same, and they still share no cell — so
+    `cqm_edits_leave_model` and `edits_write_own_cells` apply to everything that follows -/
+theorem cyAdd_copy_separate {h : Heap} {d m : Nat} (hg : CGood h d) (hm : Born 0 h m)
+    (hdis : m ∉ cfp h d ∧ cppOf h m ∉ cfp h d ∧ varsOf h m ∉ cfp h d)
+    (remap : List Rat → List Rat) (m' : Merge) (lab : List Nat → List Nat) :
+    CGood (cyAddConstraintFromModel h d m true remap m' lab).1 d ∧ Born 0 (cyAddConstraintFromModel h d m true remap m' lab).1 m ∧
+    obs (cyAddConstraintFromModel h d m true remap m' lab).1 m = obs h m ∧
+    (m ∉ cfp (cyAddConstraintFromModel h d m true remap m' lab).1 d ∧
+     cppOf (cyAddConstraintFromModel h d m true remap m' lab).1 m ∉ cfp (cyAddConstraintFromModel h d m true remap m' lab).1 d ∧
+     varsOf (cyAddConstraintFromModel h d m true remap m' lab).1 m ∉ cfp (cyAddConstraintFromModel h d m true remap m' lab).1 d) := by
+  obtain ⟨q, v, l, o, cs, hw, nd⟩ := hg
+  have hfp := cfp_eq hw
+  have hlt := cfp_lt ⟨q, v, l, o, cs, hw, nd⟩
+  rw [hfp] at hdis hlt
+  obtain ⟨d1, d2, d3, d4, d5, d6, d7, d8⟩ := hw
+  have nd0 := nd
+  simp only [List.nodup_cons, List.mem_cons, not_or] at nd
+  obtain ⟨⟨n1, n2, n3, n4, n5⟩, ⟨n6, n7, n8, n9⟩, ⟨n10, n11, n12⟩, ⟨n13, n14⟩, n15, n16⟩ := nd
+  have hshape : CShape h d q v l o cs := ⟨d1, d2, d3, d4, d5, d6, n1, n2, n3, n6, n7, n10⟩
+  obtain ⟨cm, vm, k1, k2, k3, k4, k5, k6, k7, k8, k9, k10⟩ := hm
+  have ec := cppOf_eq k1
+  have ev := varsOf_eq k1
+  rw [ec, ev] at hdis
+  simp only [List.mem_cons, not_or] at hdis
+  obtain ⟨⟨a1, a2, a3, a4, a5, a6⟩, ⟨b1, b2, b3, b4, b5, b6⟩, ⟨c1, c2, c3, c4, c5, c6⟩⟩ := hdis
+  have hm' : Born 0 h m := ⟨cm, vm, k1, k2, k3, k4, k5, k6, k7, k8, k9, k10⟩
+  have hd4 : ∀ x ∈ [m, cppOf h m, varsOf h m], x ≠ d ∧ x ≠ q ∧ x ≠ v ∧ x ≠ l := by
+    rw [ec, ev]; intro x hx; simp only [List.mem_cons, List.mem_nil_iff, or_false] at hx
+    rcases hx with h1 | h1 | h1 <;> subst h1
+    · exact ⟨a1, a2, a3, a4⟩
+    · exact ⟨b1, b2, b3, b4⟩
+    · exact ⟨c1, c2, c3, c4⟩
+  have hcell := cyAdd_cell hm' hshape hd4 true remap m' lab
+  rw [ec, ev] at hcell
+  have hnx : (cyAddConstraintFromModel h d m true remap m' lab).1.next = h.next + 1 := rfl
+  generalize cyAddConstraintFromModel h d m true remap m' lab = r at *
+  have ft : ¬ (true = false) := by decide
+  have old : ∀ a, a ≠ l → a ≠ q → a ≠ h.next → a ≠ v → r.1.cell a = h.cell a := fun a h1 h2 h3 h4 => by
+    rw [hcell, if_neg h1, if_neg h2, if_neg (fun hh => ft hh.2), if_neg (fun hh => ft hh.2), if_neg h3, if_neg h4]
+  have hw' : CWf r.1 d q v l o (cs ++ [h.next]) := by
+    refine ⟨(old d n3 n1 (by omega) n2).trans d1, by rw [hcell, if_neg n7, if_pos rfl], by omega, by omega, by omega, by omega, by omega, ?_⟩
+    intro x hx
+    rcases List.mem_append.mp hx with hh | hh
+    · have := d8 x hh; omega
+    · simp at hh; omega
+  have nd' : (d :: q :: v :: l :: o :: (cs ++ [h.next])).Nodup := by
+    show ((d :: q :: v :: l :: o :: cs) ++ [h.next]).Nodup
+    rw [List.nodup_append]
+    exact ⟨nd0, by simp, fun a ha b hb => by simp at hb; subst hb; exact Nat.ne_of_lt (hlt a ha)⟩
+  obtain ⟨bm, om, cme, vme⟩ := hm'.of_cells (h' := r.1) (by omega) (old m a4 a2 (by omega) a3)
+    (by rw [ec]; exact old cm b4 b2 (by omega) b3) (by rw [ev]; exact old vm c4 c2 (by omega) c3)
+  refine ⟨⟨q, v, l, o, _, hw', nd'⟩, bm, om, ?_⟩
+  rw [cfp_eq hw', cme, vme, ec, ev]
+  simp only [List.mem_cons, List.mem_append, List.mem_singleton, List.mem_nil_iff, or_false, not_or]
+  exact ⟨⟨a1, a2, a3, a4, a5, a6, by omega⟩, ⟨b1, b2, b3, b4, b5, b6, by omega⟩, ⟨c1, c2, c3, c4, c5, c6, by omega⟩⟩
+
+theorem edits_next (h : Heap) (m : Nat) (es : List Edit) : (es.foldl (fun acc e => e.run acc m) h).next = h.next := by
+  induction es generalizing h with
+  | nil => rfl
+  | cons e t ih => simp only [List.foldl_cons]; rw [ih]; rfl
+
+/-- **`add_constraint(model, copy=True)` end to end**: afterwards any history of in-place edits of the source model leaves the CQM reading the
+    same, and any history of in-place edits of the CQM leaves the source model reading what it read before the call -/
+theorem cyAdd_copy_then_histories {h : Heap} {d m : Nat} (hg : CGood h d) (hm : Born 0 h m)
+    (hdis : m ∉ cfp h d ∧ cppOf h m ∉ cfp h d ∧ varsOf h m ∉ cfp h d)
+    (remap : List Rat → List Rat) (m' : Merge) (lab : List Nat → List Nat) (es : List Edit) (ces : List CEdit) :
+    cobs (es.foldl (fun acc e => e.run acc m) (cyAddConstraintFromModel h d m true remap m' lab).1) d =
+      cobs (cyAddConstraintFromModel h d m true remap m' lab).1 d ∧
+    obs (ces.foldl (fun acc e => e.run acc d) (cyAddConstraintFromModel h d m true remap m' lab).1) m = obs h m := by
+  obtain ⟨g', b', o', dis'⟩ := cyAdd_copy_separate hg hm hdis remap m' lab
+  refine ⟨?_, (cqm_edits_leave_model g' b' dis' ces).1.trans o'⟩
+  refine (g'.of_cells (Nat.le_of_eq (edits_next _ m es).symm) (fun x hx => edits_write_own_cells b' es x ?_ ?_)).2.2
+  · intro e; exact dis'.2.1 (e ▸ hx)
+  · intro e; exact dis'.2.2 (e ▸ hx)
+
+
+/-- `set_objective` of an object-dtype BQM: `BinaryQuadraticModel(objective, dtype=self.dtype)` makes a temporary out of new cells, the
+    temporary is copied into the CQM's own objective cell; the caller's model is never written and shares no cell with the CQM -/
+theorem setObjective_object_spec {h : Heap} {d m q v l o : Nat} {cs : List Nat} (hm : Born 0 h m) (hd : CShape h d q v l o cs)
+    (ho : o < h.next ∧ o ≠ d ∧ o ≠ q ∧ o ≠ v)
+    (hdis : ∀ x ∈ [m, cppOf h m, varsOf h m], x ≠ o ∧ x ≠ v)
+    (remap : List Rat → List Rat) (m' : Merge) :
+    coeffsAt (setObjective h d m true remap m') o = remap (m'.u [] (obs h m).1) ∧
+    obs (setObjective h d m true remap m') m = obs h m ∧
+    (∀ a, a < h.next → a ≠ o → a ≠ v → (setObjective h d m true remap m').cell a = h.cell a) := by
+  have hp := call_spec hm hm (.construct m') rfl
+  have e : setObjective h d m true remap m' =
+      setObjective ((Call.construct m').run h m m).1 d ((Call.construct m').run h m m).2 false remap m' := rfl
+  rw [e]
+  obtain ⟨p1, p2, p3, p4⟩ := hp
+  generalize (Call.construct m').run h m m = t at *
+  obtain ⟨d1, d2, d3, d4, d5, d6, d7, d8, d9, d10, d11, d12⟩ := hd
+  obtain ⟨o0, o1, o2, o3⟩ := ho
+  have hd' : CShape t.1 d q v l o cs := ⟨(p2 d d3).trans d1, (p2 q d4).trans d2, by omega, by omega, by omega, by omega, d7, d8, d9, d10, d11, d12⟩
+  have hb : Born 0 t.1 t.2 := p3.mono (Nat.zero_le _)
+  obtain ⟨c, w, k1, k2, k3, k4, k5, k6, k7, k8, k9, k10⟩ := p3
+  have hdis' : ∀ x ∈ [t.2, cppOf t.1 t.2, varsOf t.1 t.2], x ≠ d ∧ x ≠ q ∧ x ≠ v ∧ x ≠ l ∧ x ≠ o := by
+    rw [cppOf_eq k1, varsOf_eq k1]
+    intro x hx
+    simp only [List.mem_cons, List.mem_nil_iff, or_false] at hx
+    rcases hx with h1 | h1 | h1 <;> subst h1 <;> refine ⟨by omega, by omega, by omega, by omega, by omega⟩
+  obtain ⟨_, s2, _, s4⟩ := setObjective_spec hb hd' hdis' ⟨o1, o2, o3⟩ remap m'
+  obtain ⟨cm, vm, j1, _, j3, _, j5, _, j7, _, _, _⟩ := hm
+  have hm0 : Born 0 h m := ⟨cm, vm, j1, Nat.zero_le _, j3, Nat.zero_le _, j5, Nat.zero_le _, j7, ‹_›, ‹_›, ‹_›⟩
+  rw [cppOf_eq j1, varsOf_eq j1] at hdis
+  have a0 := hdis m (by simp)
+  have a1 := hdis cm (by simp)
+  have a2 := hdis vm (by simp)
+  refine ⟨by rw [s2, p4]; rfl, ?_, fun a ha h1 h2 => (s4 a h1 h2).trans (p2 a ha)⟩
+  have hcells : ∀ x, x < h.next → x ≠ o → x ≠ v → (setObjective t.1 d t.2 false remap m').cell x = h.cell x :=
+    fun x hx h1 h2 => (s4 x h1 h2).trans (p2 x hx)
+  exact (hm0.of_cells (h' := setObjective t.1 d t.2 false remap m') (by show h.next ≤ t.1.next; exact p1) (hcells m j3 a0.1 a0.2)
+    (by rw [cppOf_eq j1]; exact hcells cm j5 a1.1 a1.2) (by rw [varsOf_eq j1]; exact hcells vm j7 a2.1 a2.2)).2.1
+
+
 end MHeap
